@@ -446,6 +446,41 @@ def run(check, an: Analysis):
     args = [a.arg for a in pre_cls.node.args.args[1:]]
     check.instance('Q', 'Preempted', args == ['by', 'usage_since', 'resource'],
                    where_fn(pre_cls), 'the interrupt carries by/usage_since/resource')
+    # ... and keeps them: each detail is stored under its own name
+    kept = {}
+    for path in an.paths(an.callee('usim.py.resources.resource.Preempted', '__init__')):
+        if path.normal:
+            got = {e['path']: rules.value_text(path, i, e['value'])
+                   for i, e in enumerate(path.events) if e.kind == 'store'
+                   and e.data.get('value') is not None}
+            for name in ('by', 'usage_since', 'resource'):
+                kept[name] = kept.get(name, True) and got.get('self.%s' % name) == name
+    check.instance('Q', 'Preempted:details-kept', bool(kept) and all(kept.values()),
+                   where_fn(pre_cls), 'the details given are the details a victim reads: %s'
+                   % kept)
+    # `usage_since` is the time at which the victim was granted the resource: every grant
+    # stamps the request with the clock
+    n_grant, unstamped = 0, None
+    for cls_qn in (RESOURCE, PRIORESOURCE, PREEMPTIVE):
+        doput = an.callee(cls_qn, '_do_put')
+        for path in an.paths(doput):
+            grants = [i for i, e in enumerate(path.events) if e.kind == 'call'
+                      and isinstance(e.node, ast.Call) and isinstance(
+                          e.node.func, ast.Attribute) and e.node.func.attr in ('append', 'add')
+                      and rules.receiver_at(path, e) == 'self.users']
+            for index in grants:
+                n_grant += 1
+                stamp = [e for i, e in enumerate(path.events) if e.kind == 'store'
+                         and e['path'].endswith('.usage_since')
+                         and rules.value_text(path, i, e['value']) in (
+                             'self._env.now', 'self._env._loop.time')]
+                if not stamp:
+                    unstamped = unstamped or (path, index)
+    check.instance('Q', 'grant:stamps-usage_since', unstamped is None and n_grant > 0,
+                   where_fn(an.method(RESOURCE, '_do_put')), 'every grant of a resource '
+                   'records the time of the grant on the request (%d grants on paths)'
+                   % n_grant, path=rules.path_lines(*unstamped) if unstamped else None,
+                   analysed=n_grant)
     # ---- F ------------------------------------------------------------------
     for cls_qn, kind, ops in ((STORE, 'deque', {'append', 'popleft'}),
                               (PRIOSTORE, 'SortedList', {'add', 'pop'}),
